@@ -202,16 +202,16 @@ func TestC13(t *testing.T) {
 				for slot := range bs.traffic {
 					k := rapid.SampledFrom([]int{0, 0, 1, 2, 3}).Draw(rt, "nTraffic")
 					for i := 0; i < k; i++ {
-						kind := rapid.SampledFrom([]string{"dispatch", "dispatch", "abciApp", "abciApp", "abciNode", "abciValidators", "abciApps", "rpcApp", "rpcNode", "rpcNodes", "rpcApps", "rpcValByChain", "rpcClaims", "rpcParams"}).Draw(rt, "trafficKind")
+						kind := rapid.SampledFrom([]string{"dispatch", "dispatch", "abciApp", "abciApp", "abciNode", "abciValidators", "abciApps", "rpcApp", "rpcNode", "rpcNodes", "rpcApps", "rpcValByChain", "rpcClaims", "rpcParams", "abciDispatch", "abciDispatch"}).Draw(rt, "trafficKind")
 						a := c13Action{kind: kind, node: rapid.IntRange(0, len(w.nodes)-1).Draw(rt, "tnode"), app: rapid.IntRange(0, 1).Draw(rt, "tapp"),
 							chain: rapid.SampledFrom([]string{"0001", "0021"}).Draw(rt, "tchain"), h: int64(rapid.IntRange(0, 6).Draw(rt, "back"))}
-						if kind == "dispatch" {
+						if kind == "dispatch" || kind == "abciDispatch" {
 							a.sbh = w.sessionStart(h-1) - int64(rapid.IntRange(0, 1).Draw(rt, "dsBack"))*w.bps
 							if a.sbh < 1 {
 								a.sbh = 1
 							}
 							dispatched[fmt.Sprintf("%d/%s/%d", a.app, a.chain, a.sbh)] = true
-							a.desc = fmt.Sprintf("@%d:dispatch app%d %s sbh=%d", slot, a.app, a.chain, a.sbh)
+							a.desc = fmt.Sprintf("@%d:%s app%d %s sbh=%d back=%d", slot, kind, a.app, a.chain, a.sbh, a.h)
 						} else {
 							a.desc = fmt.Sprintf("@%d:%s app%d node%d %s back=%d", slot, kind, a.app, a.node, a.chain, a.h)
 						}
@@ -319,6 +319,10 @@ func TestC13(t *testing.T) {
 					switch a.kind {
 					case "dispatch":
 						_, _ = pa.HandleDispatch(pocketTypes.SessionHeader{ApplicationPubKey: w.apps[a.app].PublicKey().RawString(), Chain: a.chain, SessionBlockHeight: a.sbh})
+					case "abciDispatch":
+						// the dispatch querier reached through the ABCI query route (Tendermint RPC abci_query), at any height
+						n.App.Query(abci.RequestQuery{Path: "custom/pocketcore/dispatch", Height: qh, Data: app.Codec().MustMarshalJSON(pocketTypes.QueryDispatchParams{
+							SessionHeader: pocketTypes.SessionHeader{ApplicationPubKey: w.apps[a.app].PublicKey().RawString(), Chain: a.chain, SessionBlockHeight: a.sbh}})})
 					case "abciApp":
 						n.App.Query(abci.RequestQuery{Path: "custom/application/application", Height: qh, Data: app.Codec().MustMarshalJSON(appsTypes.QueryAppParams{Address: appAddr})})
 					case "abciApps":
